@@ -260,6 +260,10 @@ QUERIES = [b"", b"a=1&a=2", b"x=%E4%B8%AD", b"a=&b", b"%ff=%zz"]
 def view_requests():
     for method, path, root, query, headers, client in itertools.product(("GET", "POST"), PATHS_VIEW, ("", "/r"), QUERIES, HEADER_MENUS, (("1.2.3.4", 5), None)):
         yield SV.AReq(method=method, path=path, root=root, query=query, headers=headers, client=client, chunks=[b"abc"] if method == "POST" else [])
+    # peers at the ends of the port range (0: what a unix-socket or in-process client reports), IPv6 peers
+    for client in (("1.2.3.4", 0), ("1.2.3.4", 65535), ("::1", 0), ("unix", 0)):
+        for method in ("GET", "POST"):
+            yield SV.AReq(method=method, path="/a", client=client, headers=[("Host", "example.com")], chunks=[b"abc"] if method == "POST" else [])
 
 
 def body_requests(tier="quick"):
@@ -484,6 +488,59 @@ def run_shard(desc, tier):
             for times in (1, 2, 3):
                 apps = {i: (lambda i=i: (lambda *a: same_object(i, skind, times)(*a)))() for i in ("wsgi", "asgi")}
                 compare(r, f"stream:{skind} same object x{times}", apps, SV.AReq(), "GET", sse=skind == "sse")
+        # keep-alive pings under every charset: a producer that stays silent for several ping intervals, then sends one event; the
+        # pieces the two stacks put on the wire (the distinct keep-alive pieces, and the event) are the same bytes
+        import time as _t
+        for cs in (None, "latin-1", "gbk", "utf-16", "cp037", "utf-7"):
+            kw = {} if cs is None else {"charset": cs}
+
+            nap = [0.12]
+
+            def sgen():
+                _t.sleep(nap[0])
+                yield {"data": "x"}
+
+            async def agen():
+                import asyncio
+                await asyncio.sleep(0.12)
+                yield {"data": "x"}
+            for nap[0] in (0.12, 0.6, 2.0):  # (real threads and real time on this side: on a busy machine the first try may see no ping)
+                wres = SV.run_wsgi(mod("wsgi").SendEventResponse(sgen(), ping_interval=0.02, **kw), SV.to_environ(SV.AReq()))
+                if len(set(bytes(x) for x in wres.items if x)) >= 2 or wres.exc is not None:
+                    break
+            # (a client that stays until the stream is over: nothing is delivered to receive() after the request, only timers run)
+            from ..core.vloop import Session as _Session
+
+            class _Res:
+                events, exc = [], None
+            ares = _Res()
+            ares.events = []
+            with _Session() as s_:
+                first = [True]
+
+                async def receive():
+                    import asyncio
+                    if first[0]:
+                        first[0] = False
+                        return {"type": "http.request", "body": b"", "more_body": False}
+                    await asyncio.Future()
+
+                async def send(m):
+                    ares.events.append(dict(m))
+                try:
+                    t_ = s_.run_to_completion(mod("asgi").SendEventResponse(agen(), ping_interval=0.02, **kw)(SV.to_scope(SV.AReq()), receive, send))
+                    ares.exc = t_.exception() if not t_.cancelled() else RuntimeError("cancelled")
+                except Exception as e:  # noqa
+                    ares.exc = e
+            wp = sorted(set(bytes(x) for x in wres.items if x))
+            ap = sorted(set(bytes(e.get("body", b"")) for e in ares.events if e.get("type") == "http.response.body" and e.get("body")))
+            r.count("evaluations")
+            r.count("distinct_nontrivial")
+            if len(wp) < 2 and wres.exc is None:
+                r.notes.append(f"sse pings charset={cs}: no keep-alive piece observed on the WSGI side (machine too busy); comparison skipped")
+                continue
+            if wres.exc is not None or ares.exc is not None or wp != ap:
+                r.violation("stream:sse-pings", {"recipe": f"sse pings charset={cs}", "request": {"charset": cs}}, f"SendEventResponse(charset={cs!r}) over a producer that is silent for six ping intervals and then sends one event: distinct pieces on the wire WSGI {wp!r:.150} ({wres.exc!r:.40}) vs ASGI {ap!r:.150} ({ares.exc!r:.40})")
         # constructor arguments of the streaming classes: no headers at all (several objects one after another), headers that
         # contain a Content-Type of their own (any case), status, explicit content_type / charset, and HEAD
         def items(i, skind):
